@@ -30,7 +30,7 @@ func c12Gen(r *RNG, id string) *Case {
 	if r.Chance(1, 4) { // the exported order-restoring writers under an adversarial arrival order
 		return reordGen(r, id)
 	}
-	kinds := []string{"snps", "snps-agg", "variants", "variants-agg", "variants-gff-shared", "toma", "topa-dir", "topa-stdout", "samvariants", "samvariants-agg", "samvariants-twins", "samvariants-twins", "samvariants-twins", "topa-stdout", "topa-stdout",
+	kinds := []string{"snps", "snps-agg", "variants", "variants-agg", "variants-gff-shared", "toma", "topa-dir", "topa-dir", "topa-dir", "topa-stdout", "samvariants", "samvariants-agg", "samvariants-twins", "samvariants-twins", "samvariants-twins", "topa-stdout", "topa-stdout",
 		"closest", "closest-n", "list", "topranking", "topranking-push", "topranking-csv", "topranking-ignore"}
 	kind := kinds[r.Intn(len(kinds))]
 	c := NewCase("REL", id)
@@ -221,6 +221,21 @@ func execC12(c *Case) {
 			} else {
 				we = mid
 			}
+		}
+		if L := atoi(sv.Get("reflen")); (kind == "topa-dir" || kind == "toma") && L >= 12 && r.Bool() {
+			// a query whose records are not contiguous (a coordinate-sorted file): two blocks of one name with one block of
+			// another query between them, several times over. Whatever is written per block (two FASTA records, the same
+			// file twice) must come out the same on every run
+			refU := strings.ToUpper(sv.Get("ref"))
+			h := L / 2
+			for k := 0; k < 12; k++ {
+				dn := fmt.Sprintf("split%02d", k)
+				all = append(all,
+					samRec{name: dn, flag: 0, pos: 1, cigar: fmt.Sprintf("%dM", h), seq: refU[:h]},
+					samRec{name: fmt.Sprintf("between%02d", k), flag: 0, pos: 1, cigar: fmt.Sprintf("%dM", L), seq: refU},
+					samRec{name: dn, flag: 2048, pos: h + 1, cigar: fmt.Sprintf("%dM", L-h), seq: strings.Repeat("T", L-h)})
+			}
+			c.Tag("query-records-not-contiguous")
 		}
 		txt := samText(sv.Get("rname"), atoi(sv.Get("reflen")), all, true)
 		refTxt := renderFasta([]string{sv.Get("rname")}, []string{sv.Get("ref")}, lay)
